@@ -2,7 +2,8 @@
 
 Space: tilt (tx, ty) from {0, +-2, 7.5}^2 mrad x dz in {1, 4.3, -2} x grids x energies x band-limited seeded waves and plane
 waves; tilt given as metadata base tilt, as an N x 2 BeamTilt ensemble and as BeamTilt2D (x distribution with y scalar,
-both distributions).
+both distributions); and HISTORIES: every sequence (depth 2 quick / 3 thorough) of calls from a 32-event menu (4 tilt kinds incl.
+an N x 2 ensemble x 2 distances x 2 grids x 2 energies) on ONE FresnelPropagator object, whose kernel is cached under a key.
 Oracle: propagate(tilted wave) == fft_shift(propagate(untilted wave), +dz tan(t) / sampling); a tilted plane wave keeps
 unit modulus through vacuum; every representation of the same tilts gives the same members in the same order.
 """
@@ -11,11 +12,12 @@ import itertools
 import numpy as np
 
 META = dict(
-    engines=["product"],
+    engines=["product", "bfs"],
     technique="exhaustive enumeration of tilt pairs (all sign combinations) x distances x grids x tilt representations; metamorphic oracle (Fourier shift)",
     text="All 16 tilt pairs from {0, 2, -2, 7.5}^2 mrad, 3 distances (one negative), 3 grids, 1-2 energies, seeded band-limited waves and plane waves are "
          "propagated with the real FresnelPropagator and compared with the untilted propagation shifted by dz tan(t); the same tilts given as base "
-         "tilt metadata, N x 2 ensemble and per-axis distributions must give identical members in the same order.",
+         "tilt metadata, N x 2 ensemble and per-axis distributions must give identical members in the same order. A breadth-first search over call histories on one propagator object (32-event menu, "
+         "depth 2 / 3, never merged) requires the shift law for the last call whatever the propagator was used for before.",
     note="Bound: grids <= 16x12, tilts <= 7.5 mrad (small-angle regime of the statement). Tolerance 1e-4 of max|psi|.",
 )
 GRIDS = [((16, 12), (0.25, 0.25)), ((12, 12), (0.3, 0.2)), ((15, 9), (0.2, 0.35))]
@@ -28,7 +30,96 @@ def check(ctx):
     for g, e, dz in itertools.product(range(len(GRIDS)), [100e3] if ctx.quick else [80e3, 300e3], (1.0, 4.3, -2.0)):
         cases.append({"kind": "shift", "g": g, "e": e, "dz": dz})
         cases.append({"kind": "reps", "g": g, "e": e, "dz": dz})
-    ctx.run(cases, "run_case", rule="shift: per (grid, energy, dz) all 16 tilt pairs x {band-limited wave, plane wave}; reps: 3 tilt representations x all members")
+    # histories: ONE FresnelPropagator object is used for a sequence of calls (its kernel is cached under a key); the shift law must
+    # hold for the last call whatever was propagated before
+    depth = 2 if ctx.quick else 3
+    for first in range(len(EVENTS)):
+        cases.append({"kind": "history", "first": first, "depth": depth, "e": 100e3})
+    ctx.run(cases, "run_case", rule="history: BFS over all call sequences (tilt x dz x grid x energy menu of %d events) up to depth 2 quick / 3 thorough on one propagator object | shift:" % len(EVENTS) + " per (grid, energy, dz) all 16 tilt pairs x {band-limited wave, plane wave}; reps: 3 tilt representations x all members")
+
+
+# event menu for the history explorer: (tilt kind, dz, grid index, energy factor)
+HT = ["none", "a", "b", "ens"]
+HTILT = {"none": (0.0, 0.0), "a": (2.0, -2.0), "b": (7.5, 0.0)}
+HENS = [(0.0, 1.5), (2.0, -2.0), (-7.5, 2.0)]
+EVENTS = [(t, dz, g, ef) for t in HT for dz in (1.0, 4.3) for g in (0, 1) for ef in (1.0, 2.0)]
+
+
+def _hist_call(prop, ev, e0):
+    """One real call on the given propagator object; returns the propagated array (members first for the ensemble event)."""
+    import abtem
+    from abtem.core.axes import TiltAxis
+
+    t, dz, g, ef = ev
+    gpts, samp = GRIDS[g]
+    x = bandlimited(g, e0)
+    if t == "ens":
+        arr = np.broadcast_to(x, (len(HENS),) + x.shape).copy()
+        w = abtem.Waves(arr, energy=e0 * ef, sampling=samp, ensemble_axes_metadata=[TiltAxis(label="tilt", values=tuple(HENS))])
+    else:
+        tilt = HTILT[t]
+        md = {} if tilt == (0.0, 0.0) else {"base_tilt_x": tilt[0], "base_tilt_y": tilt[1]}
+        w = abtem.Waves(x.copy(), energy=e0 * ef, sampling=samp, metadata=md)
+    return np.asarray(prop.propagate(w, dz).array)
+
+
+_EXPECT = {}
+
+
+def _hist_expected(ev, e0):
+    """The property's own statement for this call: the UNTILTED propagation (fresh propagator) shifted by dz tan(t) / sampling."""
+    from abtem.core.fft import fft_shift
+    from abtem.multislice import FresnelPropagator
+
+    key = (ev, e0)
+    if key not in _EXPECT:
+        t, dz, g, ef = ev
+        gpts, samp = GRIDS[g]
+        base = _hist_call(FresnelPropagator(), ("none", dz, g, ef), e0)
+        tilts = HENS if t == "ens" else [HTILT[t]]
+        out = [np.asarray(fft_shift(base, np.array([dz * np.tan(tx * 1e-3) / samp[0], dz * np.tan(ty * 1e-3) / samp[1]]))) for tx, ty in tilts]
+        _EXPECT[key] = np.stack(out) if t == "ens" else out[0]
+    return _EXPECT[key]
+
+
+def run_history(c):
+    from abtem.multislice import FresnelPropagator
+    from mc.bfs import bfs
+
+    worst = [0.0]
+
+    def fresh():
+        return {"p": FresnelPropagator(), "hist": []}
+
+    def apply(s, ev):
+        s["last"] = _hist_call(s["p"], ev, c["e"])
+        s["hist"].append(ev)
+        return "ok"
+
+    def enabled(s):
+        return EVENTS if s["hist"] else [EVENTS[c["first"]]]
+
+    def canon(s):  # the cached kernel is hidden state: histories are never merged
+        return tuple(s["hist"])
+
+    def check(s, hist, ev, info, pre):
+        want = _hist_expected(ev, c["e"])
+        got = s["last"]
+        if got.shape != want.shape:
+            return [("history/shape", "call %r after %r returns shape %r, expected %r" % (ev, list(hist), got.shape, want.shape))]
+        e = float(np.abs(got - want).max()) / float(np.abs(want).max())
+        worst[0] = max(worst[0], e / RTOL)
+        if not e <= RTOL:
+            return [("history/shift-law-after-reuse", "propagate%r on a propagator that was used for %r before differs from the shifted untilted propagation by %.3g" % (ev, list(hist), e))]
+        return []
+
+    res = bfs(fresh, apply, enabled, canon, check, c["depth"])
+    viol, seen = [], set()
+    for key, msg, hist in res["violations"]:
+        if key not in seen:
+            seen.add(key)
+            viol.append({"key": key, "msg": "%s (%s)" % (msg, c)})
+    return {"viol": viol, "obs": "%d histories" % len(res["states"]), "st": len(res["states"]), "tr": res["transitions"], "ref": res["transitions"], "err": worst[0]}
 
 
 def bandlimited(g, e):
@@ -42,6 +133,8 @@ def bandlimited(g, e):
 
 
 def run_case(c):
+    if c["kind"] == "history":
+        return run_history(c)
     import abtem
     from abtem.core.fft import fft_shift
     from abtem.multislice import FresnelPropagator
